@@ -502,6 +502,48 @@ func c19GenContent(r *Rand) string {
 	return r.Bytes(1+r.Intn(24), "abc \n\x00\xff0123")
 }
 
+// c19BigSizes: file sizes around the places where a file stops arriving in one read: the 32 KiB window of
+// compress/flate (a Deflate zip entry is handed out in pieces of at most 32768 bytes), the 32 KiB buffer
+// of io.Copy, and 64 KiB.
+//
+// Input class added for the gap r3-C19-a: every generated content was at most a few hundred bytes (8000 in
+// the thorough tier), so a zip entry or a file on disk always arrived in a single read and HashZip /
+// HashDir never saw a short, non-final read from archive/zip or os.File.
+var c19BigSizes = []int{32767, 32768, 32769, 33000, 40000, 65535, 65536, 65537, 70000}
+
+// c19GenBigContent returns a content of one of the boundary sizes (a little more in the thorough tier).
+func c19GenBigContent(r *Rand) string {
+	n := c19BigSizes[r.Intn(len(c19BigSizes))]
+	if r.Chance(30) {
+		n += r.Intn(3000)
+	}
+	if thorough && r.Chance(20) {
+		n += 100000 + r.Intn(200000)
+	}
+	// a random part (hardly compressible: literal blocks) and a repetitive part (long matches)
+	k := r.Intn(n + 1)
+	if r.Chance(30) {
+		k = n
+	}
+	head := r.Bytes(k, "abcdefgh \n\x00\xff0123456789ABCDEFGHIJKLMNOPQRSTUVWXYZ")
+	unit := r.Pick([]string{"a", "ab\n", "package a\n", "\x00", "0123456789abcdef"})
+	return head + strings.Repeat(unit, (n-k)/len(unit)+1)[:n-k]
+}
+
+// c19MakeOneBig replaces, with probability pct percent, one content (not that of go.mod, not a directory
+// entry) by a big one.
+func c19MakeOneBig(r *Rand, pct int, names, contents []string) bool {
+	if len(contents) == 0 || !r.Chance(pct) {
+		return false
+	}
+	i := r.Intn(len(contents))
+	if i >= len(names) || names[i] == "go.mod" || strings.HasSuffix(names[i], "/") {
+		return false
+	}
+	contents[i] = c19GenBigContent(r)
+	return true
+}
+
 func c19GenName(r *Rand) string {
 	switch r.Intn(20) {
 	case 0:
@@ -666,6 +708,7 @@ func c19GenModFiles(r *Rand) (rels, contents []string) {
 			contents = append(contents, c19GenContent(r))
 		}
 	}
+	c19MakeOneBig(r, 15, rels, contents)
 	return
 }
 
@@ -680,6 +723,15 @@ func c19GenContents(r *Rand, k int) []string {
 		}
 	}
 	return out
+}
+
+func c19BigTag(contents []string, tags ...string) []string {
+	for _, c := range contents {
+		if len(c) > 32768 {
+			return append(tags, "big-file")
+		}
+	}
+	return tags
 }
 
 func c19TagSet(names []string) []string {
@@ -765,8 +817,12 @@ func genC19(g *Gen, n int) {
 			}
 			rels := c19GenTree(g.Rand, c19FsElems, false)
 			pfx, contents := c19GenPrefix(g.Rand), c19GenContents(g.Rand, len(rels))
+			hdTags := []string{"hashdir", "root-" + kind}
+			if kind == "dir" && c19MakeOneBig(g.Rand, 6, rels, contents) {
+				hdTags = append(hdTags, "big-file")
+			}
 			g.Emit("dirhash.hashdir "+kind+" "+hx(pfx)+" "+hxList(rels)+" "+hxList(contents),
-				len(rels) >= 2 || kind != "dir", "hashdir", "root-"+kind)
+				len(rels) >= 2 || kind != "dir", hdTags...)
 			if g.Chance(60) {
 				sp := c19GenSpelling(g.Rand)
 				g.Emit("dirhash.hashdirat "+hx(sp)+" "+kind+" "+hx(pfx)+" "+hxList(rels)+" "+hxList(contents),
@@ -781,15 +837,18 @@ func genC19(g *Gen, n int) {
 					tags = append(tags, "dir-entry")
 				}
 			}
+			if c19MakeOneBig(g.Rand, 10, names, contents) { // a Deflate entry longer than the flate window
+				tags = append(tags, "big-file")
+			}
 			g.Emit("dirhash.hashzip "+hxList(names)+" "+hxList(contents), len(names) >= 2, tags...)
 		case 18:
 			m := c19Mods[g.Intn(len(c19Mods))]
 			rels, contents := c19GenModFiles(g.Rand)
-			g.Emit("dirhash.hashmodzip "+hx(m.Path)+" "+hx(m.Version)+" "+hxList(rels)+" "+hxList(contents), len(rels) >= 2, "modzip")
+			g.Emit("dirhash.hashmodzip "+hx(m.Path)+" "+hx(m.Version)+" "+hxList(rels)+" "+hxList(contents), len(rels) >= 2, c19BigTag(contents, "modzip")...)
 		default:
 			m := c19Mods[g.Intn(len(c19Mods))]
 			rels, contents := c19GenModFiles(g.Rand)
-			g.Emit("dirhash.hashunzip "+hx(m.Path)+" "+hx(m.Version)+" "+hxList(rels)+" "+hxList(contents), len(rels) >= 2, "unzip")
+			g.Emit("dirhash.hashunzip "+hx(m.Path)+" "+hx(m.Version)+" "+hxList(rels)+" "+hxList(contents), len(rels) >= 2, c19BigTag(contents, "unzip")...)
 		}
 	}
 }
@@ -876,7 +935,7 @@ func oracleC19(g *Gen, n int) {
 		names, contents := c19GenSet(g.Rand, false)
 		// (1) documented formula, (4) newline names refused
 		g.Case("formula")
-		h, err := c19Hash1(names, contents)
+		h, err := dirhash.Hash1(names, c19OpenWhole(names, contents))
 		if c19HasNL(names) {
 			g.Case("newline-refused")
 			if err == nil || h != "" {
@@ -887,11 +946,21 @@ func oracleC19(g *Gen, n int) {
 		} else if want := c19DocHash(c19DocSummary(names, contentOf(names, contents))); h != want {
 			g.Fail("Hash1 differs from h1:base64(sha256(documented summary))", h+" want "+want, c19Op(names, contents))
 		}
+		// (1b) bytes only: the same files served by readers that deliver them in short reads, with io.EOF
+		// attached to the last bytes, or with empty reads in between (c19Reader) hash the same
+		{
+			g.Case("formula-short-reads")
+			hs, errs := c19Hash1(names, contents)
+			if hs != h || (errs == nil) != (err == nil) {
+				g.Fail("Hash1 depends on how the readers returned by open deliver the bytes (short reads, data together with io.EOF, empty reads)",
+					fmt.Sprintf("one read per file: %q,%v; c19Delivery patterns: %q,%v", h, err, hs, errs), c19Op(names, contents))
+			}
+		}
 		// (2) independence of the listing order
 		if len(names) >= 2 {
 			g.Case("permutation")
 			n2, c2 := c19Shuffle(g.Rand, names, contents)
-			h2, err2 := c19Hash1(n2, c2)
+			h2, err2 := dirhash.Hash1(n2, c19OpenWhole(n2, c2))
 			if h2 != h || (err2 == nil) != (err == nil) {
 				g.Fail("Hash1 depends on the listing order", h+" vs "+h2, c19Op(names, contents), c19Op(n2, c2))
 			}
